@@ -9,11 +9,21 @@
     counter `q` is reported at `(f, N + (q − p − 1))`;
   * `C10_error_location`: a lexical error carries the lexer's location at the offending text;
   * `C10_countNl_append`: newlines are counted additively through any text.
+  * `C10_locations_opaque`: line numbers and file names are opaque to every client program
+    of the stream interface: from lexer states over the same remaining text that differ in
+    line counter, line offset or file name (another `filename` argument, another starting
+    line, another `#line` history) the parser model delivers the same callbacks with the same
+    payloads and ends in the same state — only the reported locations differ
+    (`rloc_bisim` + `layout_sim`);
+  * `C10_filename_only_in_locations`: the instance for `CxxParser(f1, content)` vs
+    `CxxParser(f2, content)`.
   Which token a declaration's location is taken from is per declaration form: correspondence
   `parse[locations]` and the oracles (named; not proof).
 -/
 import CxxModel.TokStream
 import CxxModel.Tables
+import CxxModel.Theorems.Layout
+import CxxModel.Parser.Decl
 namespace Cxx
 
 theorem C10_countNl_append (a b : Str) : countNl (a ++ b) = countNl a + countNl b := by
@@ -58,5 +68,29 @@ theorem C10_line_directive_rebases (st : LexState) (N q : Nat) (f : String) :
 
 theorem C10_error_location (msg : String) (v : Str) (st : LexState) :
     mkErr msg v st = .err { msg := msg, tokValue := v, loc := { filename := st.filename, lineno := (st.lineno : Int) - st.lineOffset } } := rfl
+
+
+theorem C10_locations_opaque (env : Env) (F D : Nat) (w1 w2 : World) (h : LSim RLoc w1 w2) :
+    LOut RLoc (interp env (P.parserProg F D) w1) (interp env (P.parserProg F D) w2) :=
+  layout_sim env RLoc (rloc_bisim env) _ w1 w2 h
+
+/-- the two initial worlds of `CxxParser(f1, content, …)` and `CxxParser(f2, content, …)` -/
+theorem initWorld_lsim (env : Env) (f1 f2 : String) (content : Str) :
+    LSim RLoc (initWorld env f1 content).1 (initWorld env f2 content).1 ∧
+    (initWorld env f1 content).2 = (initWorld env f2 content).2 := by
+  simp only [initWorld]
+  by_cases hf : env.faultAt = some 0
+  · simp only [deliver, hf, ↓reduceIte, Bool.false_eq_true]
+    exact ⟨⟨⟨rfl, .nil, rfl⟩, rfl, rfl, rfl, rfl, rfl, rfl, rfl, rfl, rfl, rfl⟩, trivial⟩
+  · simp only [deliver, hf, ↓reduceIte, Bool.false_eq_true]
+    exact ⟨⟨⟨rfl, .nil, rfl⟩, rfl, rfl, rfl, rfl, rfl, rfl, rfl, rfl, rfl, rfl⟩, trivial⟩
+
+theorem C10_filename_only_in_locations (env : Env) (F D : Nat) (f1 f2 : String) (content : Str) :
+    ((interp env (P.parserProg F D) (initWorld env f1 content).1).1.events.map Event.noLoc =
+     (interp env (P.parserProg F D) (initWorld env f2 content).1).1.events.map Event.noLoc) ∧
+    ResRel (interp env (P.parserProg F D) (initWorld env f1 content).1).2
+           (interp env (P.parserProg F D) (initWorld env f2 content).1).2 := by
+  have h := C10_locations_opaque env F D _ _ (initWorld_lsim env f1 f2 content).1
+  exact ⟨h.1.events, h.2⟩
 
 end Cxx
